@@ -327,7 +327,8 @@ static rc::Gen<Case> genCase(int tier)
                     SegSpec sp;
                     sp.len = *rc::gen::weightedOneOf<uint16_t>({{1, rc::gen::just<uint16_t>(0)},
                                                                 {6, range<uint16_t>(1, 40)},
-                                                                {2, range<uint16_t>(0, tier ? 1500 : 200)}});
+                                                                {2, range<uint16_t>(0, tier ? 1500 : 200)},
+                                                                {1, range<uint16_t>(900, 1500)}});
                     if (sp.len > budget)
                         sp.len = static_cast<uint16_t>(budget);
                     budget -= sp.len;
